@@ -430,6 +430,11 @@ func (e *Exec) vpCall(caller *frame, fn *ssa.Function, args []Value) Value {
 		return nil
 	case "Now":
 		return e.now()
+	case "SetUF":
+		return nil
+	case "SetDial":
+		e.dialConn = args[0].(Iface)
+		return nil
 	case "FreezeClock":
 		e.clockFrozen = args[0].(*Term).k != 0
 		return nil
@@ -519,7 +524,7 @@ func (eng *Engine) runPath(sv *Solver, h *Harness, prefix []int64) (res PathResu
 		globals: map[*ssa.Global]*Value{}, pkgInit: map[*ssa.Package]bool{},
 		maxSteps: eng.maxSteps, covers: map[string]bool{}, fnSteps: map[*ssa.Function]int64{},
 		stubsHit: map[string]int{}, pool: map[*Value][]Value{}, hashes: map[*Value]*hashState{},
-		once: map[*Value]bool{}, unwind: eng.unwind, sizeBound: eng.sizeBound, trace: eng.trace}
+		once: map[*Value]bool{}, oracle: map[string]int{}, unwind: eng.unwind, sizeBound: eng.sizeBound, trace: eng.trace}
 	e.emptyStr = &StrV{}
 	e.rtErrT = eng.rtErrT
 	sv.Reset(e.tc)
